@@ -1327,6 +1327,9 @@ class Exec:
                 st.pc.append(nkeys >= 0)
                 return {"n": nkeys, "elem": elem}
         v = self.eval(it, st)
+        if isinstance(v, tuple) and v and v[0] == "parts":
+            # the groups of partition_all: their number is ceil(n / k); a group itself is an opaque value
+            return {"n": S.ceildiv(v[2], v[1]), "elem": lambda k, s: ("part", v[1], v[2], k)}
         if isinstance(v, SeqV):
             return {"n": S.f_len(v.t), "elem": lambda k, s: I(S.f_at(v.t, k))}
         if isinstance(v, SortedItemsV):
@@ -1513,7 +1516,13 @@ class Exec:
             if src in hv:
                 # declared abstraction: this side-effect-free expression may take any value of its type
                 self.havocked.add(src)
-                return self.fresh_value(hv[src], "havoc")
+                val = self.fresh_value(hv[src], "havoc")
+                hook = (getattr(self.c.cls, "havoc_assume", None) or {}).get(src)
+                if hook is not None:
+                    # an *assumed* fact about the abstracted value (listed in the trusted base)
+                    self.assumed.add(f"{src}: {(hook.__doc__ or '').strip()}")
+                    hook(self, st, val)
+                return val
         m = getattr(self, "expr_" + type(node).__name__, None)
         if m is None:
             raise Unsupported(f"expression {type(node).__name__} at line {getattr(node, 'lineno', '?')}")
@@ -2285,6 +2294,11 @@ def _mod_operands(lname, a):
         return [(a[0] - 1, a[1]), (-a[0], a[1])]
     if lname == "div_neg":
         return [(a[0], a[1]), (-a[0], -a[1])]
+    if lname == "nested_ceil":
+        n, x, y = a
+        return [(-n, x), (S.f_pydiv(-n, x), y), (-n, x * y)]
+    if lname == "ceil_within_one":
+        return [(-a[0], a[1])]
     return []
 
 
